@@ -304,7 +304,7 @@ pub struct World {
     annotate: bool,
     audit_now: bool,
     /// constant cells: (gc id of the private never-firing stream their CellData owns, weak handle on that CellData)
-    const_cells: Vec<(u32, std::sync::Weak<dyn std::any::Any + Send + Sync>)>,
+    const_cells: Vec<(u32, u32, std::sync::Weak<dyn std::any::Any + Send + Sync>, sodium_rust::verif::GcNode)>,
     heap_dump: Mutex<String>,
     /// killer listener -> victim listener (listen_u)
     killers: HashMap<usize, usize>,
@@ -556,7 +556,7 @@ impl World {
         }
         // a constant cell's CellData owns one reference on its private stream for as long as it lives
         let mut const_owned: HashMap<u32, u32> = HashMap::new();
-        for (id, w) in &self.const_cells {
+        for (id, _cell, w, _g) in &self.const_cells {
             if w.upgrade().is_some() {
                 *const_owned.entry(*id).or_insert(0) += 1;
             }
@@ -578,6 +578,12 @@ impl World {
                 *in_edges.entry(t.verif_id()).or_insert(0) += 1;
                 stack.push(t);
             }
+            // the private stream of a live constant cell is owned by the cell's data (counted in const_owned below)
+            for (_private, cell, w, pg) in &self.const_cells {
+                if *cell == g.verif_id() && w.upgrade().is_some() {
+                    stack.push(pg.clone());
+                }
+            }
         }
         let mut ids: Vec<u32> = seen.keys().cloned().collect();
         ids.sort();
@@ -587,7 +593,14 @@ impl World {
             for id in &ids {
                 let g = &seen[id];
                 let sn = g.verif_snapshot();
-                let es: Vec<String> = g.verif_edges().iter().map(|e| e.verif_id().to_string()).collect();
+                let mut es: Vec<String> = g.verif_edges().iter().map(|e| e.verif_id().to_string()).collect();
+                // a live constant cell owns one reference on its private stream (released with the cell's data, not
+                // reported by a tracer): shown as the edge it behaves as
+                for (private, cell, w, _g) in &self.const_cells {
+                    if cell == id && w.upgrade().is_some() {
+                        es.push(private.to_string());
+                    }
+                }
                 rows.push(format!(
                     "{}:{}:{}:{}:{}:{}",
                     id,
@@ -691,7 +704,12 @@ impl World {
                 let c = ctx.new_cell(parse_val(w[2]));
                 let private = c.updates().impl_.node.gc_node.verif_id();
                 let data: Arc<dyn std::any::Any + Send + Sync> = c.impl_.data.clone();
-                self.const_cells.push((private, Arc::downgrade(&data)));
+                self.const_cells.push((
+                    private,
+                    c.impl_.node.gc_node.verif_id(),
+                    Arc::downgrade(&data),
+                    c.updates().impl_.node.gc_node.clone(),
+                ));
                 self.objs.insert(n(1), Obj::Cell(c));
             }
             "never" => {
